@@ -313,6 +313,10 @@ func genU64() *rapid.Generator[uint64] {
 
 func genBytes(lo int) *rapid.Generator[[]byte] {
 	return rapid.OneOf(
+		rapid.Custom(func(t *rapid.T) []byte { // the lengths real callers supply: hash160 / sha256
+			n := rapid.SampledFrom([]int{20, 32}).Draw(t, "n")
+			return rapid.SliceOfN(rapid.Byte(), n, n).Draw(t, "b")
+		}),
 		rapid.SliceOfN(rapid.Byte(), lo, 12),
 		rapid.SliceOfN(rapid.Byte(), lo, 44),
 		rapid.Custom(func(t *rapid.T) []byte {
